@@ -571,11 +571,19 @@ pub fn linear_code_limits(rec: &mut Rec) {
 
 /// Wrong numbers of variables for the multilinear / multivariate schemes.
 pub fn variables<S: Sch>(rec: &mut Rec) {
-    let (nv_key, others): (usize, Vec<usize>) = match S::NAME {
-        "HYR" => (4, vec![2, 6, 3]),
-        "PST" => (2, vec![3]),
-        _ => (3, vec![2, 4, 5]),
+    let sets: Vec<(usize, Vec<usize>)> = match S::NAME {
+        // Hyrax keys have 2^(nv/2) generators: polynomials with MORE variables than the key whose rows are still no
+        // longer than the generator list of a larger key class are a case of their own (6 -> 8, 8 -> 10..16)
+        "HYR" => vec![(4, vec![2, 6, 3]), (6, vec![8, 4, 10]), (8, vec![10, 12])],
+        "PST" => vec![(2, vec![3])],
+        _ => vec![(3, vec![2, 4, 5])],
     };
+    for (nv_key, others) in sets {
+        variables_for::<S>(rec, nv_key, others);
+    }
+}
+
+fn variables_for<S: Sch>(rec: &mut Rec, nv_key: usize, others: Vec<usize>) {
     let id = format!("{}/variables/key-nv={}", S::NAME, nv_key);
     if !rec.take(&id) {
         return;
@@ -614,6 +622,20 @@ pub fn variables<S: Sch>(rec: &mut Rec) {
                         }
                     }
                 };
+                // a served request must still be binding: a polynomial that differs in its LAST evaluation only may not
+                // get the same commitment (same RNG seed, so equal blinding)
+                if S::FAM == Fam::Ml {
+                    let last = format!("e{}", (1usize << nv) - 1);
+                    if let Some((_, e_last)) = S::shapes(&ocfg, rec.seed).into_iter().find(|(n, _)| *n == last) {
+                        let p2 = S::lincomb(S::F::one(), &p, S::F::one(), &e_last);
+                        let mut rng = seed_rng(rec.seed, 0);
+                        if let Ok((cm2, _)) = do_commit::<S>(&keys.ck, &[lp::<S>("p", p2, None, None)], Some(&mut rng as &mut dyn RngCore)) {
+                            if ser(cm2[0].commitment()) == ser(cset.comms[0].commitment()) {
+                                rec.violation(&format!("C17/{}/commit/wrong-number-of-variables", S::NAME), &id, format!("a {}-variable polynomial under a {}-variable key was committed, and a polynomial that differs in its last evaluation gets the same commitment (part of the polynomial is ignored)", nv, nv_key));
+                            }
+                        }
+                    }
+                }
                 rec.count_points(1);
                 rec.class(&format!("nv-mismatch-{}", outcome));
                 rec.obs(&format!("{}|nv|{}|{}", S::NAME, nv, outcome));
